@@ -19,8 +19,9 @@ from typing import Any, Dict, List, Sequence, Tuple
 from .. import core, mmx, proto as P
 
 T1 = 1001
-IDS = {"P1": 21, "P2": 22, "R1": 31, "R2": 32, "K": 33, "L": 60}
-HIDS = {"P1": 1, "P2": 2, "R1": 3, "R2": 4, "K": 5, "L": 6}
+IDS = {"P1": 21, "P2": 22, "R1": 31, "R2": 32, "K": 33, "L": 60, "E": 34}
+HIDS = {"P1": 1, "P2": 2, "R1": 3, "R2": 4, "K": 5, "L": 6, "E": 7}
+# E subscribes BEFORE it sends CONNECT: frames written to it before the handshake count like all others
 SIZES = (4, 0, 65535)
 TICKS = (0.95, 1.05, 5.1)
 
@@ -136,6 +137,9 @@ def execute(case) -> Dict[str, Any]:
         for s in IDS:
             w.client(s, HIDS[s]).connect()
         w.settle()
+        w.clients["E"].send(P.mkframe(P.MT_SUBSCRIBE, P.p_sub(T1), timecode=tc, src_mod_id=IDS["E"])
+                            + P.mkframe(P.MT_PAUSE_SUBSCRIPTION, P.p_sub(1002), timecode=tc, src_mod_id=IDS["E"]))
+        w.settle()
         for s, mid in IDS.items():
             w.clients[s].send(P.mkframe(P.MT_CONNECT, P.p_connect(1 if s == "L" else 0, 0), timecode=tc, src_mod_id=mid))
         w.settle()
@@ -185,7 +189,7 @@ def execute(case) -> Dict[str, Any]:
         ob = [x for x in data_seen[b] if x in common]
         if oa != ob:
             problems.append({"kind": "cross-receiver-order", "a": a, "b": b, "order_a": oa, "order_b": ob})
-    sig = tuple(tuple(data_seen[s]) for s in ("R1", "R2", "L", "K"))
+    sig = tuple(tuple(data_seen[s]) for s in ("R1", "R2", "L", "K", "E"))
     return {"problems": problems, "frames": nframes, "kinds": sorted(kinds), "sig": hash(sig),
             "interleaved": len({m for (m, c) in data_seen["L"]}) > 1}
 
